@@ -8,10 +8,12 @@ import MalVerif.Py.TieLegacyBase
   `scad_loader_eq` ties them to the generated function by unfolding, so a change of the Python source breaks it.  The
   loops contain `return None`: their state is `LS = Option (Option H) × H` (pending return value, heap).
 * `StepSimR` / `loop_simR`: the simulation argument for such a loop against a `foldlM` of the hand model; Python's
-  `return None` (and every exception) is an error of the hand model.
+  `return None` is the `lookupError` of the hand model, an exception is its error of the same class (`errAbsL`,
+  `ErrAgree`).
 * Stage 1: `scad_object_sim`, `scad_objects_loop` (objects loop = fold of `Legacy.loadScadObject`).
 * Stage 2: `scad_assoc_sim` (associations loop body = `Legacy.loadScadAssoc`).
-* Stage 3: `scad_loader_sim` (the whole loader = `loadScadFrom … (abs (emptyModel path))`).
+* Stage 3: `scad_loader_sim_class` (the whole loader = `loadScadFrom … (abs (emptyModel path))`, with the error class);
+  `scad_loader_sim` (accepts / rejects only) is its corollary.
 * `cex_python_raises` / `cex_hand_accepts`: why `ObjWf.noEmpty` is assumed.
 -/
 namespace MalVerif.PyLeg.Tie
@@ -139,22 +141,40 @@ theorem forInS_cons_err {β σ : Type} (body : β → σ → Except LErr (ForInS
   show (body x s).bind _ = _
   rw [h]; rfl
 
+/-- the error class of the hand model that an exception of the translated loader stands for; `none`: the value is
+outside the modelled subset (`unmodelled`: Python would not raise).  `typeError` cannot occur in this loader (every
+prelude function is called with a `PyJ.str`), so it is given no class: a `typeError` would agree with nothing. -/
+def errAbsL : LErr → Option MS.Err
+  | .py e => some (errAbs e)
+  | .validation => some .validation
+  | .typeError => none
+  | .unmodelled => none
+
+/-- Python exception `e` and hand-model error `er` agree: same class, or `e` is `unmodelled` (an evidence attribute that
+is not a defense of the class: pjs accepts it silently, the hand model answers `validation`) -/
+def ErrAgree (e : LErr) (er : MS.Err) : Prop := errAbsL e = some er ∨ (e = .unmodelled ∧ er = .validation)
+
+theorem ErrAgree.py (e : PyErr) : ErrAgree (.py e) (errAbs e) := Or.inl rfl
+
 /-- what a loop body (with `continue` = `yield`, and `return None` = `done` with the flag set) does on `a`, against one
-step of the hand model: Python's `return None` is an error of the hand model -/
+step of the hand model: Python's `return None` is the `lookupError` of the hand model, an exception is the error of
+the same class (`ErrAgree`) -/
 structure StepSimR {α : Type} (P : Nat → H → Prop) (Q : α → Prop) (body : α → LS → Except LErr (ForInStep LS))
     (step : MS.St → α → Except MS.Err MS.St) : Prop where
   ok : ∀ n s a r, P (n + 1) s → Q a → body a (none, s) = .ok r →
     (∃ s1, r = .yield (none, s1) ∧ step (abs s) a = .ok (abs s1) ∧ P n s1) ∨
-    (∃ s1, r = .done (some none, s1) ∧ ∃ er, step (abs s) a = .error er)
-  err : ∀ n s a e, P (n + 1) s → Q a → body a (none, s) = .error e → ∃ er, step (abs s) a = .error er
+    (∃ s1, r = .done (some none, s1) ∧ step (abs s) a = .error .lookupError)
+  err : ∀ n s a e, P (n + 1) s → Q a → body a (none, s) = .error e →
+    ∃ er, step (abs s) a = .error er ∧ ErrAgree e er
 
 theorem loop_simR {α : Type} {P : Nat → H → Prop} {Q : α → Prop} {body : α → LS → Except LErr (ForInStep LS)}
     {step : MS.St → α → Except MS.Err MS.St} (hsim : StepSimR P Q body step) :
     ∀ (l : List α), (∀ a ∈ l, Q a) → ∀ (s : H), P l.length s →
       (∀ st, forIn l ((none, s) : LS) body = .ok st →
         (∃ s', st = (none, s') ∧ l.foldlM step (abs s) = .ok (abs s') ∧ P 0 s') ∨
-        (∃ s', st = (some none, s') ∧ ∃ er, l.foldlM step (abs s) = .error er)) ∧
-      (∀ e, forIn l ((none, s) : LS) body = .error e → ∃ er, l.foldlM step (abs s) = .error er) := by
+        (∃ s', st = (some none, s') ∧ l.foldlM step (abs s) = .error .lookupError)) ∧
+      (∀ e, forIn l ((none, s) : LS) body = .error e →
+        ∃ er, l.foldlM step (abs s) = .error er ∧ ErrAgree e er) := by
   intro l
   induction l with
   | nil =>
@@ -172,13 +192,16 @@ theorem loop_simR {α : Type} {P : Nat → H → Prop} {Q : α → Prop} {body :
     rw [List.foldlM_cons]
     cases hb : body a (none, s) with
     | error e =>
-      obtain ⟨er, her⟩ := hsim.err as.length s a e hs hqa hb
+      obtain ⟨er, her, hag⟩ := hsim.err as.length s a e hs hqa hb
       rw [forInS_cons_err _ _ _ _ _ hb, her]
       refine ⟨?_, ?_⟩
       · intro s' h; cases h
-      · intro e' _; exact ⟨er, rfl⟩
+      · intro e' h
+        injection h with h
+        subst h
+        exact ⟨er, rfl, hag⟩
     | ok r =>
-      rcases hsim.ok as.length s a r hs hqa hb with ⟨s1, hr, hst, hp⟩ | ⟨s1, hr, er, her⟩
+      rcases hsim.ok as.length s a r hs hqa hb with ⟨s1, hr, hst, hp⟩ | ⟨s1, hr, her⟩
       · subst hr
         rw [forInS_cons_yield _ _ _ _ _ hb, hst]
         exact ih hqs s1 hp
@@ -188,7 +211,7 @@ theorem loop_simR {α : Type} {P : Nat → H → Prop} {Q : α → Prop} {body :
         · intro st h
           have h' : (Except.ok ((some none, s1) : LS) : Except LErr LS) = .ok st := h
           injection h' with h'
-          exact Or.inr ⟨s1, h'.symm, er, rfl⟩
+          exact Or.inr ⟨s1, h'.symm, rfl⟩
         · intro e h; cases h
 
 /-! ### Stage 1: the objects loop -/
@@ -248,6 +271,17 @@ def scadDefs (ds : List (String × String)) : List (String × String) := ds.map 
 
 theorem decap_empty : decap "" = "" := by decide
 
+/-- the exceptions of the evidence loop: `IndexError` on an empty name (`py other`), the pjs `ValidationError` of the
+range check, or an attribute that is not a defense of the class (`unmodelled`: pjs accepts it silently) -/
+def DefErr (e : LErr) : Prop := e = .py .other ∨ e = .validation ∨ e = .unmodelled
+
+/-- each of them agrees with the `validation` the hand model answers (`errAbs other = validation`) -/
+theorem DefErr.agree {e : LErr} (h : DefErr e) : ErrAgree e .validation := by
+  rcases h with h | h | h
+  · subst h; exact Or.inl rfl
+  · subst h; exact Or.inl rfl
+  · subst h; exact Or.inr ⟨rfl, rfl⟩
+
 /-- one round of the evidence loop on the new object -/
 theorem scadDefBody_new (fac : Factory) (s : H) (o : PyAsset) (d : String × String)
     (hfr : decap d.1 ∉ o.defenses.map (·.1))
@@ -256,7 +290,7 @@ theorem scadDefBody_new (fac : Factory) (s : H) (o : PyAsset) (d : String × Str
       scadDefBody fac s.afresh d (newAssetObj s o) =
         .ok (.yield (newAssetObj s { o with defenses := o.defenses ++ [(decap d.1, d.2)] }))) ∧
     (scadGuard fac o.type (decap d.1, d.2) = false →
-      ∃ e, scadDefBody fac s.afresh d (newAssetObj s o) = .error e) := by
+      ∃ e, scadDefBody fac s.afresh d (newAssetObj s o) = .error e ∧ DefErr e) := by
   rw [scadDefBody_eq]
   unfold pyDecap
   by_cases he : d.1 = ""
@@ -264,7 +298,7 @@ theorem scadDefBody_new (fac : Factory) (s : H) (o : PyAsset) (d : String × Str
       unfold scadGuard
       rw [he, decap_empty, hemp he]; rfl
     rw [hg]
-    refine ⟨fun h => (by cases h), fun _ => ⟨.py .other, ?_⟩⟩
+    refine ⟨fun h => (by cases h), fun _ => ⟨.py .other, ?_, Or.inl rfl⟩⟩
     rw [he]
     rfl
   · have hne : d.1.isEmpty = false := by
@@ -273,17 +307,17 @@ theorem scadDefBody_new (fac : Factory) (s : H) (o : PyAsset) (d : String × Str
       | true => exact absurd (String.isEmpty_iff.1 h) he
     simp only [hne, Bool.false_eq_true, if_false]
     show (_ → (pjsSetDefense fac (newAssetObj s o) s.afresh (PyJ.str (decap d.1)) d.2).bind _ = _) ∧
-      (_ → ∃ e, (pjsSetDefense fac (newAssetObj s o) s.afresh (PyJ.str (decap d.1)) d.2).bind _ = _)
+      (_ → ∃ e, (pjsSetDefense fac (newAssetObj s o) s.afresh (PyJ.str (decap d.1)) d.2).bind _ = _ ∧ _)
     unfold pjsSetDefense scadGuard
     simp only [scad_newAssetObj_a, scad_dictSet_fresh _ _ _ hfr, scad_newAssetObj_setA]
     cases (MS.defensesOf fac.L o.type).any (·.1 = decap d.1) <;> cases fac.floatOk d.2
-    · exact ⟨fun h => (by cases h), fun _ => ⟨_, rfl⟩⟩
-    · exact ⟨fun h => (by cases h), fun _ => ⟨_, rfl⟩⟩
-    · exact ⟨fun h => (by cases h), fun _ => ⟨_, rfl⟩⟩
+    · exact ⟨fun h => (by cases h), fun _ => ⟨.unmodelled, rfl, Or.inr (Or.inr rfl)⟩⟩
+    · exact ⟨fun h => (by cases h), fun _ => ⟨.unmodelled, rfl, Or.inr (Or.inr rfl)⟩⟩
+    · exact ⟨fun h => (by cases h), fun _ => ⟨.validation, rfl, Or.inr (Or.inl rfl)⟩⟩
     · exact ⟨fun _ => rfl, fun h => by cases h⟩
 
 /-- the evidence loop on the new object: all assignments pass their guards and the object holds the decapitalised
-defenses, or one of them raises -/
+defenses, or one of them raises (`DefErr`) -/
 theorem scad_defenses_loop (fac : Factory) (s : H) :
     ∀ (ds : List (String × String)) (o : PyAsset), ((o.defenses ++ scadDefs ds).map (·.1)).Nodup →
       (∀ d ∈ ds, d.1 = "" → (MS.defensesOf fac.L o.type).any (·.1 = "") = false) →
@@ -291,7 +325,7 @@ theorem scad_defenses_loop (fac : Factory) (s : H) :
         forIn ds (newAssetObj s o) (scadDefBody fac s.afresh) =
           .ok (newAssetObj s { o with defenses := o.defenses ++ scadDefs ds })) ∧
       ((scadDefs ds).all (scadGuard fac o.type) = false →
-        ∃ e, forIn ds (newAssetObj s o) (scadDefBody fac s.afresh) = .error e) := by
+        ∃ e, forIn ds (newAssetObj s o) (scadDefBody fac s.afresh) = .error e ∧ DefErr e) := by
   intro ds
   induction ds with
   | nil =>
@@ -326,9 +360,9 @@ theorem scad_defenses_loop (fac : Factory) (s : H) :
         cases h : scadGuard fac o.type (decap d.1, d.2) with
         | false => rfl
         | true => exact absurd h hg
-      obtain ⟨e, herr⟩ := hstep.2 hg'
+      obtain ⟨e, herr, hde⟩ := hstep.2 hg'
       rw [forIn_cons_err _ _ _ _ _ herr]
-      refine ⟨?_, fun _ => ⟨_, rfl⟩⟩
+      refine ⟨?_, fun _ => ⟨e, rfl, hde⟩⟩
       intro h
       rw [Bool.and_eq_true] at h
       exact absurd h.1 hg
@@ -364,6 +398,10 @@ structure ObjWf (fac : Factory) (defsOk : Int → Bool) (o : ScadObject) : Prop 
   nodup : (o.defenses.map (fun d => decap d.1)).Nodup
   defsOk : defsOk o.id = o.defenses.all (fun d => fac.floatOk d.2)
   noEmpty : ∀ d ∈ o.defenses, d.1 = "" → (MS.defensesOf fac.L o.metaConcept).any (·.1 = "") = false
+
+/-- what the objects loop needs: `ObjWf` of the objects that are not attackers (the attacker branch reads only the id) -/
+def ObjWfA (fac : Factory) (defsOk : Int → Bool) (o : ScadObject) : Prop :=
+  o.metaConcept ≠ "Attacker" → ObjWf fac defsOk o
 
 theorem scad_newAttObj_setT (s : H) :
     (newAttObj s {}).setT s.tfresh { (newAttObj s {}).t s.tfresh with entry_points := [] } = newAttObj s {} := by
@@ -428,15 +466,17 @@ theorem scad_asset_branch (env : ModelEnv) (fac : Factory) (o : ScadObject) (s :
   rw [if_neg h]
   rfl
 
-/-- the body of the objects loop on one object, against `Legacy.loadScadObject` -/
+/-- the body of the objects loop on one object, against `Legacy.loadScadObject`.  The guards come in the same order on
+both sides: no such class (`return None` / `lookupError`), the evidence attributes (`DefErr` / `validation`), then the
+errors of `add_asset` (`add_asset_tie`). -/
 theorem scad_object_sim (env : ModelEnv) (fac : Factory) (defsOk : Int → Bool) :
-    StepSimR (PO env) (ObjWf fac defsOk) (scadObjectBody env fac) (loadScadObject fac.L defsOk) := by
-  have key : ∀ n s o, PO env (n + 1) s → ObjWf fac defsOk o →
+    StepSimR (PO env) (ObjWfA fac defsOk) (scadObjectBody env fac) (loadScadObject fac.L defsOk) := by
+  have key : ∀ n s o, PO env (n + 1) s → ObjWfA fac defsOk o →
       (∀ r, scadObjectBody env fac o (none, s) = .ok r →
         (∃ s1, r = .yield (none, s1) ∧ loadScadObject fac.L defsOk (abs s) o = .ok (abs s1) ∧ PO env n s1) ∨
-        (∃ s1, r = .done (some none, s1) ∧ ∃ er, loadScadObject fac.L defsOk (abs s) o = .error er)) ∧
+        (∃ s1, r = .done (some none, s1) ∧ loadScadObject fac.L defsOk (abs s) o = .error .lookupError)) ∧
       (∀ e, scadObjectBody env fac o (none, s) = .error e →
-        ∃ er, loadScadObject fac.L defsOk (abs s) o = .error er) := by
+        ∃ er, loadScadObject fac.L defsOk (abs s) o = .error er ∧ ErrAgree e er) := by
     intro n s o hP hQ
     by_cases hatt : (o.metaConcept == "Attacker") = true
     · -- an attacker object
@@ -449,6 +489,7 @@ theorem scad_object_sim (env : ModelEnv) (fac : Factory) (defsOk : Int → Bool)
       · unfold loadScadObject
         rw [if_pos hmc, habs]
     · have hmc : ¬ o.metaConcept = "Attacker" := by simpa using hatt
+      have hQ : ObjWf fac defsOk o := hQ hmc
       obtain ⟨hI, hfuel, hep, hid⟩ := hP
       have hfresh : s.afresh ∉ s.assets := hI.assets.fresh_not_mem
       have hfuel1 : s.asset_names.length + 1 ≤ env.whileFuel := by omega
@@ -467,7 +508,7 @@ theorem scad_object_sim (env : ModelEnv) (fac : Factory) (defsOk : Int → Bool)
           | none => rfl
           | some _ => rw [h] at hcls; cases hcls
         rw [if_pos hns]
-        refine ⟨fun r h => Or.inr ⟨s, ?_, .lookupError, ?_⟩, fun e h => by cases h⟩
+        refine ⟨fun r h => Or.inr ⟨s, ?_, ?_⟩, fun e h => by cases h⟩
         · injection h with h; exact h.symm
         · rw [addAsset_eq_core, if_pos hcls]
       · have hsome : (fac.L.findAsset o.metaConcept).isSome = true := by
@@ -517,7 +558,9 @@ theorem scad_object_sim (env : ModelEnv) (fac : Factory) (defsOk : Int → Bool)
           | error e0 =>
             rw [hm] at tie
             dsimp only [liftPy]
-            refine ⟨fun r h => (by cases h), fun e _ => ⟨errAbs e0, ?_⟩⟩
+            refine ⟨fun r h => (by cases h), fun e h => ?_⟩
+            cases h
+            refine ⟨errAbs e0, ?_, ErrAgree.py e0⟩
             rw [hhand]; exact tie.symm
           | ok s1 =>
             rw [hm] at tie
@@ -549,21 +592,23 @@ theorem scad_object_sim (env : ModelEnv) (fac : Factory) (defsOk : Int → Bool)
             cases h : (scadDefs o.defenses).all (scadGuard fac o.metaConcept) with
             | false => rfl
             | true => exact absurd h hg
-          obtain ⟨e0, hloop⟩ := lerr hg'
+          obtain ⟨e0, hloop, hde⟩ := lerr hg'
           simp only [Except.bind]
           rw [hloop]
-          refine ⟨fun r h => (by cases h), fun e _ => ⟨.validation, ?_⟩⟩
+          refine ⟨fun r h => (by cases h), fun e h => ?_⟩
+          cases h
+          refine ⟨.validation, ?_, hde.agree⟩
           rw [addAsset_eq_core, if_neg hcls, hgd, hg']; rfl
   exact ⟨fun n s a r hP hQ h => (key n s a hP hQ).1 r h, fun n s a e hP hQ h => (key n s a hP hQ).2 e h⟩
 
 /-- the objects loop against the fold of `Legacy.loadScadObject` -/
 theorem scad_objects_loop (env : ModelEnv) (fac : Factory) (defsOk : Int → Bool) (l : List ScadObject)
-    (hq : ∀ o ∈ l, ObjWf fac defsOk o) (s : H) (hP : PO env l.length s) :
+    (hq : ∀ o ∈ l, ObjWfA fac defsOk o) (s : H) (hP : PO env l.length s) :
     (∀ st, forIn l ((none, s) : LS) (scadObjectBody env fac) = .ok st →
       (∃ s', st = (none, s') ∧ l.foldlM (loadScadObject fac.L defsOk) (abs s) = .ok (abs s') ∧ PO env 0 s') ∨
-      (∃ s', st = (some none, s') ∧ ∃ er, l.foldlM (loadScadObject fac.L defsOk) (abs s) = .error er)) ∧
+      (∃ s', st = (some none, s') ∧ l.foldlM (loadScadObject fac.L defsOk) (abs s) = .error .lookupError)) ∧
     (∀ e, forIn l ((none, s) : LS) (scadObjectBody env fac) = .error e →
-      ∃ er, l.foldlM (loadScadObject fac.L defsOk) (abs s) = .error er) :=
+      ∃ er, l.foldlM (loadScadObject fac.L defsOk) (abs s) = .error er ∧ ErrAgree e er) :=
   loop_simR (scad_object_sim env fac defsOk) l hq s hP
 
 /-! ### Stage 3: the whole loader, from the two loop simulations -/
@@ -571,14 +616,17 @@ theorem scad_objects_loop (env : ModelEnv) (fac : Factory) (defsOk : Int → Boo
 /-- invariant of the associations loop -/
 def PL2 (_n : Nat) (s : H) : Prop := MS.Inv (abs s) ∧ EpOKAll s ∧ AttIds s
 
-theorem scad_loader_core (files : Files) (env : ModelEnv) (fac : Factory) (lg : LangGraphView)
+/-- the whole loader against `loadScadFrom`, with the error class: a model is the state of the hand model, `None` is
+its `lookupError`, an exception is the error of the same class -/
+theorem scad_loader_core_class (files : Files) (env : ModelEnv) (fac : Factory) (lg : LangGraphView)
     (nodes : List AssocDecl) (defsOk : Int → Bool) (path : String) (d : ScadDoc)
     (hL : StepSimR PL2 (fun _ => True) (scadAssocBody env lg fac) (loadScadAssoc fac.L nodes))
-    (hfile : files.eom path = .ok d) (hwf : ∀ o ∈ d.objects, ObjWf fac defsOk o)
+    (hfile : files.eom path = .ok d) (hwf : ∀ o ∈ d.objects, o.metaConcept ≠ "Attacker" → ObjWf fac defsOk o)
     (hfuel : d.objects.length ≤ env.whileFuel) :
-    (match securicad_load_model_from_scad_archive files env path lg fac with
-     | .ok (some s') => some (abs s') | _ => none) =
-      optSt (loadScadFrom fac.L nodes defsOk (abs (emptyModel path)) d) := by
+    match securicad_load_model_from_scad_archive files env path lg fac with
+    | .ok (some s') => loadScadFrom fac.L nodes defsOk (abs (emptyModel path)) d = .ok (abs s')
+    | .ok none => loadScadFrom fac.L nodes defsOk (abs (emptyModel path)) d = .error .lookupError
+    | .error e => ∃ er, loadScadFrom fac.L nodes defsOk (abs (emptyModel path)) d = .error er ∧ ErrAgree e er := by
   rw [scad_loader_eq, hfile]
   simp only [bind, Except.bind, newModel]
   have hp0 : PO env d.objects.length ({ name := path } : H) :=
@@ -591,26 +639,52 @@ theorem scad_loader_core (files : Files) (env : ModelEnv) (fac : Factory) (lg : 
   rw [show abs (emptyModel path) = abs ({ name := path } : H) from rfl]
   cases h1 : forIn d.objects ((none, ({ name := path } : H)) : LS) (scadObjectBody env fac) with
   | error e =>
-    obtain ⟨er, her⟩ := a2 e h1
-    rw [her]; rfl
+    obtain ⟨er, her, hag⟩ := a2 e h1
+    rw [her]
+    exact ⟨er, rfl, hag⟩
   | ok st1 =>
-    rcases a1 st1 h1 with ⟨s1, hst, hs1, hI1, _, hO1, hid1⟩ | ⟨s1, hst, er, her⟩
+    rcases a1 st1 h1 with ⟨s1, hst, hs1, hI1, _, hO1, hid1⟩ | ⟨s1, hst, her⟩
     · subst hst
       rw [hs1]
       simp only []
       obtain ⟨b1, b2⟩ := loop_simR hL d.associations (fun _ _ => trivial) s1 ⟨hI1, hO1, hid1⟩
       cases h2 : forIn d.associations ((none, s1) : LS) (scadAssocBody env lg fac) with
       | error e =>
-        obtain ⟨er, her⟩ := b2 e h2
-        rw [her]; rfl
+        obtain ⟨er, her, hag⟩ := b2 e h2
+        rw [her]
+        exact ⟨er, rfl, hag⟩
       | ok st2 =>
-        rcases b1 st2 h2 with ⟨s2, hst, hs2, _⟩ | ⟨s2, hst, er, her⟩
+        rcases b1 st2 h2 with ⟨s2, hst, hs2, _⟩ | ⟨s2, hst, her⟩
         · subst hst
           rw [hs2]; rfl
         · subst hst
           rw [her]; rfl
     · subst hst
       rw [her]; rfl
+
+theorem scad_loader_core (files : Files) (env : ModelEnv) (fac : Factory) (lg : LangGraphView)
+    (nodes : List AssocDecl) (defsOk : Int → Bool) (path : String) (d : ScadDoc)
+    (hL : StepSimR PL2 (fun _ => True) (scadAssocBody env lg fac) (loadScadAssoc fac.L nodes))
+    (hfile : files.eom path = .ok d) (hwf : ∀ o ∈ d.objects, ObjWf fac defsOk o)
+    (hfuel : d.objects.length ≤ env.whileFuel) :
+    (match securicad_load_model_from_scad_archive files env path lg fac with
+     | .ok (some s') => some (abs s') | _ => none) =
+      optSt (loadScadFrom fac.L nodes defsOk (abs (emptyModel path)) d) := by
+  have h := scad_loader_core_class files env fac lg nodes defsOk path d hL hfile (fun o ho _ => hwf o ho) hfuel
+  cases hr : securicad_load_model_from_scad_archive files env path lg fac with
+  | error e =>
+    rw [hr] at h
+    obtain ⟨er, her, _⟩ := h
+    rw [her]; rfl
+  | ok r =>
+    rw [hr] at h
+    cases r with
+    | none =>
+      have h' : loadScadFrom fac.L nodes defsOk (abs (emptyModel path)) d = .error .lookupError := h
+      rw [h']; rfl
+    | some s' =>
+      have h' : loadScadFrom fac.L nodes defsOk (abs (emptyModel path)) d = .ok (abs s') := h
+      rw [h']; rfl
 
 /-! ### Stage 2: the associations loop -/
 
@@ -669,7 +743,7 @@ theorem add_entry_point_ids (s : H) (env : ModelEnv) (t : TRef) (a : ARef) (step
 theorem scad_ep_sim {env : ModelEnv} (hE : EqId env) (s : H) (hP : PL2 0 s) (attId tgtId : Int) (prop : String) :
     ∀ r, scadEpBranch env attId tgtId prop s = .ok r →
       (∃ s1, r = .yield (none, s1) ∧ handEp (abs s) attId tgtId prop = .ok (abs s1) ∧ PL2 0 s1) ∨
-      (∃ s1, r = .done (some none, s1) ∧ ∃ er, handEp (abs s) attId tgtId prop = .error er) := by
+      (∃ s1, r = .done (some none, s1) ∧ handEp (abs s) attId tgtId prop = .error .lookupError) := by
   obtain ⟨hI, hO, hid⟩ := hP
   intro r hr
   unfold scadEpBranch at hr
@@ -678,13 +752,13 @@ theorem scad_ep_sim {env : ModelEnv} (hE : EqId env) (s : H) (hP : PL2 0 s) (att
   cases ht : MS.getAttackerById (abs s) attId with
   | none =>
     rw [ht] at hr
-    refine Or.inr ⟨s, ?_, .lookupError, rfl⟩
+    refine Or.inr ⟨s, ?_, rfl⟩
     injection hr with hr; exact hr.symm
   | some t =>
     cases hx : MS.getAssetById (abs s) tgtId with
     | none =>
       rw [ht, hx] at hr
-      refine Or.inr ⟨s, ?_, .lookupError, rfl⟩
+      refine Or.inr ⟨s, ?_, rfl⟩
       injection hr with hr; exact hr.symm
     | some x =>
       rw [ht, hx] at hr
@@ -772,7 +846,8 @@ theorem scad_setField (fac : Factory) (s : H) (o : PyAssoc) (k : MS.AssocClass)
 
 theorem scad_beq_ne {a b : String} (h : a ≠ b) : (a == b) = false := by simpa using h
 
-/-- the last step: `add_association` on the finished object against `MS.addAssociation` after its pjs guards -/
+/-- the last step: `add_association` on the finished object against `MS.addAssociation` after its pjs guards; its
+exceptions are the errors of `addAssocCore`, class by class (`add_association_tie`) -/
 theorem scad_link_add {env : ModelEnv} (hE : EqId env) (fac : Factory) (s : H) (hP : PL2 0 s) (k : MS.AssocClass)
     (hfind : (MS.assocClasses fac.L).find? (·.cls = k.cls) = some k) (hk : k.lf ≠ k.rf) (left right : List Nat)
     (hchk : (left.all (fun a => MS.okMember fac.L k.ltype (s.a a).type) && MS.okCount k.lmax left.length &&
@@ -784,7 +859,7 @@ theorem scad_link_add {env : ModelEnv} (hE : EqId env) (fac : Factory) (s : H) (
     (∀ e, (liftPy (model_add_association (newAssocObj s
           { cls := k.cls, lf := k.lf, rf := k.rf, left := left, right := right, distinct := hk }) env s.lfresh)).bind
         (fun s' => (Except.ok (ForInStep.yield ((none, s') : LS)) : Except LErr (ForInStep LS))) = .error e →
-      ∃ er, MS.addAssociation fac.L (abs s) k.cls left right = .error er) := by
+      ∃ er, MS.addAssociation fac.L (abs s) k.cls left right = .error er ∧ ErrAgree e er) := by
   obtain ⟨hI, hO, hid⟩ := hP
   have tie := add_association_tie hE s hI
     { cls := k.cls, lf := k.lf, rf := k.rf, left := left, right := right, distinct := hk }
@@ -798,7 +873,11 @@ theorem scad_link_add {env : ModelEnv} (hE : EqId env) (fac : Factory) (s : H) (
       { cls := k.cls, lf := k.lf, rf := k.rf, left := left, right := right, distinct := hk }) env s.lfresh with
   | error e0 =>
     rw [hm] at tie
-    refine ⟨fun r h => (by cases h), fun e _ => ⟨errAbs e0, ?_⟩⟩
+    refine ⟨fun r h => (by cases h), fun e h => ?_⟩
+    have h' : (Except.error (.py e0) : Except LErr (ForInStep LS)) = .error e := h
+    injection h' with h'
+    subst h'
+    refine ⟨errAbs e0, ?_, ErrAgree.py e0⟩
     rw [hhand]; exact tie.symm
   | ok s1 =>
     rw [hm] at tie
@@ -822,7 +901,9 @@ theorem scad_nsNewAssoc (fac : Factory) (s : H) (k : MS.AssocClass)
   simp only [hfind, dif_pos hk, allocL_eq]
 
 /-- the new association object with its fields assigned by name, against `MS.addAssociation`: `f1 ↦ [x1]`,
-`f2 ↦ [x2]`; when `(f1, f2)` are the class's fields in the opposite order the members end up swapped -/
+`f2 ↦ [x2]`; when `(f1, f2)` are the class's fields in the opposite order the members end up swapped.  A `setattr`
+that fails its pjs guard is a `ValidationError`, where the hand model answers `validation` (its guard comes before
+those of `add_association` as well). -/
 theorem scad_link_run {env : ModelEnv} (hE : EqId env) (fac : Factory) (s : H) (hP : PL2 0 s) (k : MS.AssocClass)
     (hfind : (MS.assocClasses fac.L).find? (·.cls = k.cls) = some k) (hk : k.lf ≠ k.rf)
     (f1 f2 : String) (x1 x2 : ARef) (left right : List Nat)
@@ -831,7 +912,7 @@ theorem scad_link_run {env : ModelEnv} (hE : EqId env) (fac : Factory) (s : H) (
     (∀ r, scadLinkRun env fac s k.cls f1 f2 x1 x2 = .ok r →
       ∃ s1, r = .yield (none, s1) ∧ MS.addAssociation fac.L (abs s) k.cls left right = .ok (abs s1) ∧ PL2 0 s1) ∧
     (∀ e, scadLinkRun env fac s k.cls f1 f2 x1 x2 = .error e →
-      ∃ er, MS.addAssociation fac.L (abs s) k.cls left right = .error er) := by
+      ∃ er, MS.addAssociation fac.L (abs s) k.cls left right = .error er ∧ ErrAgree e er) := by
   have hvalid : ∀ (l r : List Nat),
       (l.all (fun a => MS.okMember fac.L k.ltype (s.a a).type) && MS.okCount k.lmax l.length &&
         r.all (fun a => MS.okMember fac.L k.rtype (s.a a).type) && MS.okCount k.rmax r.length) = false →
@@ -849,13 +930,13 @@ theorem scad_link_run {env : ModelEnv} (hE : EqId env) (fac : Factory) (s : H) (
     rw [scad_setField fac s _ k hfind]
     simp only [beq_self_eq_true, if_true]
     cases hc1 : (MS.okMember fac.L k.ltype (s.a x1).type && MS.okCount k.lmax 1)
-    · refine ⟨fun r h => (by cases h), fun e _ => ⟨_, hvalid [x1] [x2] ?_⟩⟩
+    · refine ⟨fun r h => (by cases h), fun e h => ⟨.validation, hvalid [x1] [x2] ?_, by cases h; exact Or.inl rfl⟩⟩
       simp only [List.all_cons, List.all_nil, Bool.and_true, List.length_cons, List.length_nil, hc1, Bool.false_and]
     · simp only [if_true]
       rw [scad_setField fac s _ k hfind]
       simp only [hrl, Bool.false_eq_true, if_false, beq_self_eq_true, if_true]
       cases hc2 : (MS.okMember fac.L k.rtype (s.a x2).type && MS.okCount k.rmax 1)
-      · refine ⟨fun r h => (by cases h), fun e _ => ⟨_, hvalid [x1] [x2] ?_⟩⟩
+      · refine ⟨fun r h => (by cases h), fun e h => ⟨.validation, hvalid [x1] [x2] ?_, by cases h; exact Or.inl rfl⟩⟩
         simp only [List.all_cons, List.all_nil, Bool.and_true, List.length_cons, List.length_nil, Bool.and_assoc,
           hc2, Bool.and_false]
       · simp only [if_true]
@@ -866,14 +947,14 @@ theorem scad_link_run {env : ModelEnv} (hE : EqId env) (fac : Factory) (s : H) (
     rw [scad_setField fac s _ k hfind]
     simp only [hrl, Bool.false_eq_true, if_false, beq_self_eq_true, if_true]
     cases hc1 : (MS.okMember fac.L k.rtype (s.a x1).type && MS.okCount k.rmax 1)
-    · refine ⟨fun r h => (by cases h), fun e _ => ⟨_, hvalid [x2] [x1] ?_⟩⟩
+    · refine ⟨fun r h => (by cases h), fun e h => ⟨.validation, hvalid [x2] [x1] ?_, by cases h; exact Or.inl rfl⟩⟩
       simp only [List.all_cons, List.all_nil, Bool.and_true, List.length_cons, List.length_nil, Bool.and_assoc,
         hc1, Bool.and_false]
     · simp only [if_true]
       rw [scad_setField fac s _ k hfind]
       simp only [beq_self_eq_true, if_true]
       cases hc2 : (MS.okMember fac.L k.ltype (s.a x2).type && MS.okCount k.lmax 1)
-      · refine ⟨fun r h => (by cases h), fun e _ => ⟨_, hvalid [x2] [x1] ?_⟩⟩
+      · refine ⟨fun r h => (by cases h), fun e h => ⟨.validation, hvalid [x2] [x1] ?_, by cases h; exact Or.inl rfl⟩⟩
         simp only [List.all_cons, List.all_nil, Bool.and_true, List.length_cons, List.length_nil, hc2, Bool.false_and]
       · simp only [if_true]
         refine scad_link_add hE fac s hP k hfind hk [x2] [x1] ?_
@@ -892,18 +973,19 @@ theorem scad_link_sim {env : ModelEnv} (hE : EqId env) (fac : Factory) (lg : Lan
     (hlg : LgSpec fac.L nodes lg) (s : H) (hP : PL2 0 s) (a : ScadAssoc) :
     (∀ r, scadLinkBranch env lg fac a s = .ok r →
       (∃ s1, r = .yield (none, s1) ∧ handLink fac.L nodes (abs s) a = .ok (abs s1) ∧ PL2 0 s1) ∨
-      (∃ s1, r = .done (some none, s1) ∧ ∃ er, handLink fac.L nodes (abs s) a = .error er)) ∧
-    (∀ e, scadLinkBranch env lg fac a s = .error e → ∃ er, handLink fac.L nodes (abs s) a = .error er) := by
+      (∃ s1, r = .done (some none, s1) ∧ handLink fac.L nodes (abs s) a = .error .lookupError)) ∧
+    (∀ e, scadLinkBranch env lg fac a s = .error e →
+      ∃ er, handLink fac.L nodes (abs s) a = .error er ∧ ErrAgree e er) := by
   unfold scadLinkBranch handLink
   rw [get_asset_by_id_tie, get_asset_by_id_tie]
   cases hla : MS.getAssetById (abs s) a.targetObject with
   | none =>
-    refine ⟨fun r h => Or.inr ⟨s, ?_, .lookupError, rfl⟩, fun e h => by cases h⟩
+    refine ⟨fun r h => Or.inr ⟨s, ?_, rfl⟩, fun e h => by cases h⟩
     injection h with h; exact h.symm
   | some la =>
     cases hra : MS.getAssetById (abs s) a.sourceObject with
     | none =>
-      refine ⟨fun r h => Or.inr ⟨s, ?_, .lookupError, rfl⟩, fun e h => by cases h⟩
+      refine ⟨fun r h => Or.inr ⟨s, ?_, rfl⟩, fun e h => by cases h⟩
       injection h with h; exact h.symm
     | some ra =>
       dsimp only
@@ -913,15 +995,23 @@ theorem scad_link_sim {env : ModelEnv} (hE : EqId env) (fac : Factory) (lg : Lan
       rw [e1, e2]
       cases hlk : LG.lookupAssoc fac.L nodes a.sourceProperty a.targetProperty (s.a la).type (s.a ra).type with
       | error e0 =>
-        refine ⟨fun r h => ?_, fun e _ => ⟨.lookupError, rfl⟩⟩
-        have h' : (Except.error (.py .lookupError) : Except LErr (ForInStep LS)) = .ok r := h
-        cases h'
+        refine ⟨fun r h => ?_, fun e h => ⟨.lookupError, rfl, ?_⟩⟩
+        · have h' : (Except.error (.py .lookupError) : Except LErr (ForInStep LS)) = .ok r := h
+          cases h'
+        · have h' : (Except.error (.py .lookupError) : Except LErr (ForInStep LS)) = .error e := h
+          injection h' with h'
+          subst h'
+          exact ErrAgree.py .lookupError
       | ok od =>
         cases od with
         | none =>
-          refine ⟨fun r h => ?_, fun e _ => ⟨.lookupError, rfl⟩⟩
-          have h' : (Except.error (.py .lookupError) : Except LErr (ForInStep LS)) = .ok r := h
-          cases h'
+          refine ⟨fun r h => ?_, fun e h => ⟨.lookupError, rfl, ?_⟩⟩
+          · have h' : (Except.error (.py .lookupError) : Except LErr (ForInStep LS)) = .ok r := h
+            cases h'
+          · have h' : (Except.error (.py .lookupError) : Except LErr (ForInStep LS)) = .error e := h
+            injection h' with h'
+            subst h'
+            exact ErrAgree.py .lookupError
         | some d =>
           -- the declaration found
           have hfd : (nodes.find? (fun a' =>
@@ -953,8 +1043,8 @@ theorem scad_link_sim {env : ModelEnv} (hE : EqId env) (fac : Factory) (lg : Lan
             · obtain ⟨s1, h1, h2, h3⟩ := r1 r h
               refine ⟨s1, h1, ?_, h3⟩
               simp only [hlf, if_true]; exact h2
-            · obtain ⟨er, h1⟩ := r2 e h
-              refine ⟨er, ?_⟩
+            · obtain ⟨er, h1, hag⟩ := r2 e h
+              refine ⟨er, ?_, hag⟩
               simp only [hlf, if_true]; exact h1
           · have hsw : d.leftField = a.targetProperty ∧ d.rightField = a.sourceProperty := by
               simp only [Bool.or_eq_true, Bool.and_eq_true, decide_eq_true_eq] at hmatch
@@ -967,8 +1057,8 @@ theorem scad_link_sim {env : ModelEnv} (hE : EqId env) (fac : Factory) (lg : Lan
             · obtain ⟨s1, h1, h2, h3⟩ := r1 r h
               refine ⟨s1, h1, ?_, h3⟩
               simp only [hlf, if_false]; exact h2
-            · obtain ⟨er, h1⟩ := r2 e h
-              refine ⟨er, ?_⟩
+            · obtain ⟨er, h1, hag⟩ := r2 e h
+              refine ⟨er, ?_, hag⟩
               simp only [hlf, if_false]; exact h1
 
 /-- the body of the associations loop on one association element, against `Legacy.loadScadAssoc` -/
@@ -979,9 +1069,9 @@ theorem scad_assoc_sim {env : ModelEnv} (hE : EqId env) (fac : Factory) (lg : La
   have key : ∀ s a, PL2 0 s →
       (∀ r, scadAssocBody env lg fac a (none, s) = .ok r →
         (∃ s1, r = .yield (none, s1) ∧ loadScadAssoc fac.L nodes (abs s) a = .ok (abs s1) ∧ PL2 0 s1) ∨
-        (∃ s1, r = .done (some none, s1) ∧ ∃ er, loadScadAssoc fac.L nodes (abs s) a = .error er)) ∧
+        (∃ s1, r = .done (some none, s1) ∧ loadScadAssoc fac.L nodes (abs s) a = .error .lookupError)) ∧
       (∀ e, scadAssocBody env lg fac a (none, s) = .error e →
-        ∃ er, loadScadAssoc fac.L nodes (abs s) a = .error er) := by
+        ∃ er, loadScadAssoc fac.L nodes (abs s) a = .error er ∧ ErrAgree e er) := by
     intro s a hP
     unfold scadAssocBody
     have noerr : ∀ attId tgtId prop e, scadEpBranch env attId tgtId prop s = .error e → False := by
@@ -1024,6 +1114,24 @@ theorem scad_loader_sim (files : Files) {env : ModelEnv} (hE : EqId env) (fac : 
      | .ok (some s') => some (abs s') | _ => none) =
       optSt (loadScadFrom fac.L nodes defsOk (abs (emptyModel path)) d) :=
   scad_loader_core files env fac lg nodes defsOk path d (scad_assoc_sim hE fac lg nodes hF hd hnodes hlg)
+    hfile hwf hfuel
+
+/-- The same with the error CLASS: a returned model is the state `loadScadFrom` computes; `None` is returned exactly
+where the hand model answers `lookupError` (an unknown asset class, an id that names no asset / attacker); an exception
+is an error of the hand model of the same class (`ErrAgree`: `errAbs` of the Python exception, pjs `ValidationError` =
+`validation`; the one exception is an evidence attribute that is not a defense of the class, `unmodelled` in the
+prelude, where the hand model answers `validation`).  `ObjWf` is only asked of the objects that are not attackers. -/
+theorem scad_loader_sim_class (files : Files) {env : ModelEnv} (hE : EqId env) (fac : Factory) (lg : LangGraphView)
+    (nodes : List AssocDecl) (defsOk : Int → Bool) (path : String) (d : ScadDoc)
+    (hF : FieldsDistinct fac.L) (hd : Ser.ClassNamesDistinct fac.L) (hnodes : ∀ d ∈ nodes, d ∈ fac.L.assocs)
+    (hlg : LgSpec fac.L nodes lg)
+    (hfile : files.eom path = .ok d) (hwf : ∀ o ∈ d.objects, o.metaConcept ≠ "Attacker" → ObjWf fac defsOk o)
+    (hfuel : d.objects.length ≤ env.whileFuel) :
+    match securicad_load_model_from_scad_archive files env path lg fac with
+    | .ok (some s') => loadScadFrom fac.L nodes defsOk (abs (emptyModel path)) d = .ok (abs s')
+    | .ok none => loadScadFrom fac.L nodes defsOk (abs (emptyModel path)) d = .error .lookupError
+    | .error e => ∃ er, loadScadFrom fac.L nodes defsOk (abs (emptyModel path)) d = .error er ∧ ErrAgree e er :=
+  scad_loader_core_class files env fac lg nodes defsOk path d (scad_assoc_sim hE fac lg nodes hF hd hnodes hlg)
     hfile hwf hfuel
 
 /-! ### `ObjWf.noEmpty` is needed: a class with a defense named `""` and an evidence attribute named `""` -/
